@@ -3,8 +3,9 @@ CONSTANTS
   Mode = "bfs"
   Ns = {4}
   Shapes = {1,2,3,4,5,6}
+  Deep = {3,4,5}
   MaxLen = 2
   MaxPages = 40
-  Alpha = "full"
+  Deep3 = {4,5}
   Emit = TRUE
 INVARIANTS TreesOK PagesOK StepSane EmitCase
